@@ -26,8 +26,8 @@ def Tbl.live (isEmpty : V → Bool) (s : Tbl K V) : Nat :=
 section
 variable (cmp : K → K → Ordering) (isEmpty : V → Bool)
 
-/-- `qtreetbl_putobj` under an allocation plan. Existing key: one attempt (the value copy, if
-    the value is non-empty). New key: `calloc` node, `qmemdup` key, `qmemdup` value (if
+/-- `qtreetbl_putobj` under an allocation plan (`isEmpty v`: `qmemdup` of `v` is NULL without
+    an allocation). Existing key: one attempt (the value copy, if the value is non-empty). New key: `calloc` node, `qmemdup` key, `qmemdup` value (if
     non-empty) — all attempted before the results are tested. On failure the descent with its
     4-node splits and fix-ups has happened and is committed, nothing is stored, `false`. -/
 def Tbl.putobjF (plan : Plan) (s : Tbl K V) (k : K) (v : V) : Except Fault (Tbl K V × Bool × Nat) :=
@@ -37,7 +37,7 @@ def Tbl.putobjF (plan : Plan) (s : Tbl K V) (k : K) (v : V) : Except Fault (Tbl 
     T.put cmp keyOf k none id (s.root.size + 1) s.root >>= fun p =>
       .ok ({ s with root := p.1.blacken }, false, n)
   else
-    s.putobj cmp isEmpty k v >>= fun p => .ok (p.1, p.2, n)
+    s.putobj cmp replaceAlways k v >>= fun p => .ok (p.1, p.2, n)
 
 /-- `qtreetbl_getobj(…, newmem = true)`: one attempt when the key holds a non-empty value -/
 def Tbl.getobjF (plan : Plan) (s : Tbl K V) (k : K) : Option V × Nat :=
